@@ -97,12 +97,16 @@ def step (s : S) (line : String) : S × String :=
       -- nosort=1: sort(1) cannot be run. Only the external path calls it: system() fails, eslESYS, index removed.
       let sortFails := (argNat? ws "nosort").getD 0 ≠ 0 && ns.external && !ns.written &&
                        !(decide (ns.nsecondary > 0 ∧ ns.slen = 0)) && ns.flen ≠ 0
-      let (_, st, file) := if sortFails then (ns, some St.esys, (none : Option Bytes)) else ns.write s.file
+      let (ns1, st, file1) := if sortFails then (ns, some St.esys, (none : Option Bytes)) else ns.write s.file
+      -- twice=1: esl_newssi_Write is called a second time before Close
+      let twice := (argNat? ws "twice").getD 0 ≠ 0
+      let (_, st2, file) := if twice then ns1.write file1 else (ns1, (none : Option St), file1)
+      let again := if twice then s!" again={stName st2}" else ""
       let bytes := file.getD []
       let hx := if bytes.length ≤ HEXLIMIT then " hex=" ++ hexOrDash bytes else ""
       let tmp := if ns.external then false else s.tmp      -- Close removes the tmp files iff external
       ({ s with ns := none, file := file, tmp := tmp },
-       s!"{stName st} file={if file.isSome then 1 else 0} tmp={if tmp then 1 else 0} n={bytes.length} h={hex64 (fnvBytes bytes)}{hx}")
+       s!"{stName st} file={if file.isSome then 1 else 0} tmp={if tmp then 1 else 0} n={bytes.length} h={hex64 (fnvBytes bytes)}{hx}{again}")
     | none => (s, "bad-op")
   | "openraw" :: _ =>
     match argHex? ws "hex" with
